@@ -5,6 +5,7 @@
 #include "ccl/semantic/RSForm.h"
 #include <algorithm>
 #include <set>
+#include <map>
 
 using namespace ccl;
 using namespace ccl::semantic;
@@ -150,6 +151,31 @@ int main() {
         const bool ok = c.form.MoveBefore(uid, it);
         emit("c09 move " + std::to_string(uid) + " " + std::to_string(pos), ok ? "1" : "0");
         if (!ok) emit("c09 same move", before == c.fullDump() ? "1" : "0");
+      } else if (r < 88 && !known.empty()) {
+        // duplicate removal: the only path that erases a constituent without the tracking guard
+        // (RSForm::EraseInternal from DeleteDuplicatesInternal). Make an exact duplicate of an
+        // existing non-empty constituent, track one of the two, then delete duplicates.
+        const auto orig = rng.pick(known);
+        if (c.form.Contains(orig) && !c.form.GetRS(orig).IsEmpty()) {
+          ConceptRecord rec = c.form.Core().AsRecord(orig);
+          rec.uid = static_cast<uint32_t>(rng.range(1, 9));
+          const auto dup = c.form.InsertCopy(rec);
+          known.push_back(dup); c.everUids.insert(dup); c.everUids.insert(rec.uid);
+          c.everAliases.insert(rec.alias); c.everAliases.insert(c.form.GetRS(dup).alias);
+          emit("c09 insert " + std::to_string(rec.uid) + " " + hex(rec.alias) + " " + typeName(rec.type) + " " + std::to_string(dup),
+               std::to_string(dup) + ":" + c.form.GetRS(dup).alias);
+          if (rng.chance(2, 3)) { const auto t = rng.chance(1, 2) ? dup : orig; c.form.Mods().Track(t); emit("c09 track " + std::to_string(t), "ok"); }
+          std::map<uint32_t, std::string> aliasBefore;
+          for (const auto uid : c.form.Core()) aliasBefore[uid] = c.form.GetRS(uid).alias;
+          const auto translation = c.form.Ops().DeleteDuplicates();
+          std::vector<uint32_t> erased;
+          for (const auto& [from, to] : translation) erased.push_back(from);
+          std::sort(erased.begin(), erased.end());
+          for (const auto uid : erased) {
+            emit("c09 eraseint " + std::to_string(uid), c.form.Contains(uid) ? "0" : "1");
+            emit("c09 gone " + std::to_string(uid), goneCheck(c, uid, aliasBefore[uid]));
+          }
+        } else emit("c09 track " + std::to_string(orig), (c.form.Mods().Track(orig), "ok"));
       } else if (r < 90) {
         c.form.ResetAliases();
         for (const auto uid : c.form.Core()) c.everAliases.insert(c.form.GetRS(uid).alias);
